@@ -32,7 +32,8 @@ TRUSTED = ["model: coq/Model/CacheMachine.v (hand-written from _slos.py, _abstra
            "tied by this correspondence stream: outputs and white-box cache keys after every operation)",
            "native exqalibur behaviour (FSArray order, FSMask rule, FSMap over an empty parent array = crash) is "
            "modelled, not verified"]
-ASSUMPTIONS = ["the keyed-cache theorems say that a cache entry is a function of the configuration it was computed under; that "
+ASSUMPTIONS = ["time-delay components (TD) are not in the Processor alphabet (loss and polarisation layers are)",
+               "the keyed-cache theorems say that a cache entry is a function of the configuration it was computed under; that "
                "a query does not modify an entry in place is covered by the repeated-query stream (the same superposed "
                "input twice in a row, then superpositions sharing basic states, each against a fresh Simulator)",
                "Simulator: the model covers the invalidation policy of _evolve (circuit, heralds, mask usability) and the "
@@ -259,10 +260,18 @@ class BCfg:
         self.mask = None            # (strs, n)
         self.cutoff = None
         self.inp = None
+        self.opts = None            # constructor options that are not reachable through a mutator (use_symbolic)
 
     def apply(self, op):
         k = op[0]
-        if k == "circ":
+        if k == "new":              # constructor options: mask / cutoff are the same settings as set_mask / set_cutoff
+            o = dict(op[1])
+            if "mask" in o:
+                self.mask = ([o.pop("mask")], None)
+            if "cutoff" in o:
+                self.cutoff = o.pop("cutoff")
+            self.opts = o or None
+        elif k == "circ":
             self.circ, self.inp = op[1], None
         elif k == "in":
             self.inp = list(op[1])
@@ -277,6 +286,8 @@ class BCfg:
 
     def fresh(self, q):
         h = []
+        if self.opts:
+            h.append(["new", self.opts])
         if self.circ is not None:
             h.append(["circ", self.circ])
         if self.cutoff is not None:
@@ -297,25 +308,37 @@ def rand_mask(rng, m):
     return ["mask", strs, n]
 
 
-def rand_backend_history(rng, circs, name, maxlen=8):
+def rand_backend_history(rng, circs, name, maxlen=8, nmax=3, opts=None, pool=None,
+                         qkinds=("amp", "dist", "dist", "allprob", "evolve", "allprob_in")):
+    """opts: constructor options forced on the engine (use_symbolic); mask (SLOS) and cutoff (MPS) given to the
+    constructor are drawn here; pool: indices of the circuits to use."""
     h = []
     m = None
     have_in = False
     n_cur = 0
     L = rng.rint(3, maxlen)
-    h.append(["circ", rng.below(len(circs))])
-    m = circs[h[0][1]].m
+    pool = list(range(len(circs))) if pool is None else pool
+    first = rng.choice(pool)
+    m = circs[first].m
+    o = dict(opts or {})
+    if name == "SLOS" and rng.chance(1, 6):
+        o["mask"] = rand_mask(rng, m)[1][0]
+    if name == "MPS" and rng.chance(1, 4):
+        o["cutoff"] = rng.rint(1, 6)
+    if o:
+        h.append(["new", o])
+    h.append(["circ", first])
     while len(h) < L:
         r = rng.below(20)
         if r < 2:
-            i = rng.below(len(circs))
+            i = rng.choice(pool)
             if circs[i].m != m and rng.chance(1, 2):
                 h.append(["clear"])          # a mask of the old length would make the next input illegal
             h.append(["circ", i])
             m = circs[i].m
             have_in = False
         elif r < 8:
-            n_cur = rng.rint(0, 3)
+            n_cur = rng.rint(0, nmax)
             h.append(["in", gen.rand_state(rng, m, n_cur)])
             have_in = True
         elif r < 11:
@@ -334,17 +357,32 @@ def rand_backend_history(rng, circs, name, maxlen=8):
                 h.append(["mask", ["*" * (m + 1)], None])
             break
         elif have_in:
-            q = rng.choice(["amp", "dist", "dist", "allprob", "evolve", "allprob_in"])
-            if q == "amp":
-                nn = n_cur if rng.chance(5, 6) else rng.rint(0, 3)
-                h.append(["q", "amp", gen.rand_state(rng, m, nn)])
+            q = rng.choice(list(qkinds))
+            if q in ("amp", "prob"):
+                nn = n_cur if rng.chance(5, 6) else rng.rint(0, nmax)
+                h.append(["q", q, gen.rand_state(rng, m, nn)])
             elif q == "allprob_in":
-                n_cur = rng.rint(0, 3)
+                n_cur = rng.rint(0, nmax)
                 h.append(["q", "allprob_in", gen.rand_state(rng, m, n_cur)])
             else:
                 h.append(["q", q])
     if have_in and h[-1][0] != "q":
         h.append(["q", "dist"])
+    return h
+
+
+def rand_swap_history(rng, circs, pool, opts, nmax=2, qkinds=("amp", "prob")):
+    """Same-size circuit swaps on an engine that has already deployed inputs (the paths are kept and their coefficients
+    recomputed), each followed by the inputs again and point queries."""
+    m = circs[pool[0]].m
+    h = [["new", dict(opts)]] if opts else []
+    states = [gen.rand_state(rng, m, rng.rint(1, nmax)) for _ in range(2)]
+    for r in range(rng.rint(2, 3)):
+        h.append(["circ", rng.choice(pool)])
+        for st in (states if rng.chance(1, 2) else states[:1]):
+            h.append(["in", st])
+            for _ in range(rng.rint(1, 2)):
+                h.append(["q", rng.choice(list(qkinds)), gen.rand_state(rng, m, sum(st))])
     return h
 
 
@@ -389,7 +427,9 @@ def model_ops(h, circs):
     ops = []
     for op in h:
         k = op[0]
-        if k == "circ":
+        if k == "new":      # a mask given to the constructor is set_mask; otherwise nothing (clear_mask on a new engine)
+            ops.append([2, [mask_to_model(op[1]["mask"])], -1] if "mask" in op[1] else [3])
+        elif k == "circ":
             c = circs[op[1]]
             ops.append([0, c.m, c.U])
         elif k == "in":
@@ -496,7 +536,8 @@ def slos_signature(hstep, fstep, cfg, hist=()):
             return "slos-keyerror-query-after-mask-change-with-input-set"
         return f"slos-index-mismatch-after-photon-number-change-{under}"
     if hstep["c"] == "ok" and fstep["c"] == "ok":
-        return f"slos-stale-levels-after-photon-number-growth-{under}"
+        return (f"slos-stale-levels-after-photon-number-growth-{under}" if cfg.mask is not None
+                else "slos-value-differs-from-fresh-no-mask")
     return f"slos-other-{hstep['c']}-vs-{fstep['c']}-{under}"
 
 
@@ -513,7 +554,7 @@ def nontrivial_history(h, k):
     kinds = [op[0] for op in h[:k]]
     n_in = len({tuple(op[1]) if op[0] == "in" else None for op in h[:k] if op[0] == "in"})
     return kinds.count("circ") > 1 or n_in > 1 or any(x in kinds for x in
-                                                     ("mask", "clear", "cutoff", "heralds", "param", "noise", "add",
+                                                     ("mask", "clear", "cutoff", "heralds", "param", "noise", "add", "new", "selection", "precision",
                                                       "filter", "postselect", "clear_heralds", "pinput"))
 
 
@@ -532,7 +573,7 @@ def shrink(history, k, failing_subset):
 
 
 # ------------------------------------------------------------------------------------------------ engine stream
-def check_backend_stream(ctx, name, circs, hists, stream, with_model):
+def check_backend_stream(ctx, name, circs, hists, stream, with_model, variant=""):
     target = "backend:" + name
     cdesc = [c.desc() for c in circs]
     tol = 1e-7 if name == "MPS" else TOL
@@ -600,7 +641,7 @@ def check_backend_stream(ctx, name, circs, hists, stream, with_model):
                 if same_step(hs, fs, tol):
                     continue
                 s2 = (slos_signature(hs, fs, c2, cand) if name == "SLOS"
-                      else generic_signature(name.lower(), hs, fs))
+                      else generic_signature(name.lower(), hs, fs)) + variant
                 if s2 == sig:
                     good.append(i)
                     seen_pairs[json.dumps(cand)] = (hs, fs, fh)
@@ -623,7 +664,7 @@ def check_backend_stream(ctx, name, circs, hists, stream, with_model):
             cfg = BCfg()
             cfg.circ, cfg.mask, cfg.cutoff, cfg.inp = cfgt
             sig = (slos_signature(hs, fs, cfg, h[:k + 1]) if name == "SLOS"
-                   else generic_signature(name.lower(), hs, fs))
+                   else generic_signature(name.lower(), hs, fs)) + variant
             ctx.count(f"{name}.differs-from-fresh")
             if sig not in reported:
                 reported.add(sig)
@@ -714,7 +755,12 @@ def check_iterator_keys(ctx, name, circs, hists, res, reported):
         for k, op in enumerate(h):
             if k >= len(steps) or steps[k]["c"] != "ok":
                 break
-            if op[0] == "circ":
+            if op[0] == "new":
+                if "mask" in op[1]:
+                    ops.append([1, [mask_to_model(op[1]["mask"])], -1])
+                else:
+                    mp.append(None); continue
+            elif op[0] == "circ":
                 ops.append([0, circs[op[1]].m]); n_in = None
             elif op[0] == "mask":
                 ops.append([1, [mask_to_model(x) for x in op[1]], -1 if op[2] is None else op[2]])
@@ -758,7 +804,12 @@ def check_mps_cutoff(ctx, circs, hists, res, reported):
         for k, op in enumerate(h):
             if k >= len(steps) or steps[k]["c"] != "ok":
                 break
-            if op[0] == "circ":
+            if op[0] == "new":
+                if "cutoff" in op[1]:
+                    ops.append([0, op[1]["cutoff"]])
+                else:
+                    mp.append(None); continue
+            elif op[0] == "circ":
                 ops.append([1, circs[op[1]].m])
             elif op[0] == "cutoff":
                 ops.append([0, op[1]])
@@ -859,28 +910,59 @@ SIM_STATES = {2: [[1, 0], [1, 1], [0, 1], [2, 0], "|{_:0},{_:1}>"],
               3: [[1, 0, 0], [1, 1, 0], [0, 1, 1], [1, 0, 1], [2, 1, 0], "|{_:0},{_:1},0>", "|{_:0},0,{_:1}>"]}
 
 
-def sim_fresh(h, k, steps):
-    circ = heralds = ps = filt = keep = None
+def selection_state(h, k, steps):
+    """The settings a Simulator / Stepper history defines, whatever the route (dedicated setter or set_selection);
+    degenerate values are settings like any other: filter 0, empty heralds, the trivially true post-selection."""
+    st = {"circ": None, "heralds": None, "ps": None, "filter": None, "keep": None, "precision": None}
     for kk, op in enumerate(h[:k]):
         if kk < len(steps) and steps[kk]["c"] != "ok":
             continue
         if op[0] == "circ":
-            circ = op
+            st["circ"] = op
         elif op[0] == "heralds":
-            heralds = op
+            st["heralds"] = op[1] or None
         elif op[0] == "clear_heralds":
-            heralds = None
+            st["heralds"] = None
         elif op[0] == "postselect":
-            ps = op
+            st["ps"] = op[1]
         elif op[0] == "clear_postselect":
-            ps = None
+            st["ps"] = None
         elif op[0] == "filter":
-            filt = op
+            st["filter"] = op[1]
         elif op[0] == "keep_heralds":
-            keep = op
-    if circ is None:
+            st["keep"] = op[1]
+        elif op[0] == "precision":
+            st["precision"] = op[1]
+        elif op[0] == "selection":
+            if op[1] is not None:
+                st["filter"] = op[1]
+            if op[2] is not None:
+                st["ps"] = op[2] or None
+            if op[3] is not None:
+                st["heralds"] = op[3] or None
+    return st
+
+
+def fresh_from_selection(st, query):
+    """A fresh object is configured through the dedicated setters only (the history may have used set_selection)."""
+    if st["circ"] is None:
         return None
-    return [circ] + [x for x in (heralds, ps, filt, keep) if x is not None] + [h[k]]
+    h = [st["circ"]]
+    if st["heralds"]:
+        h.append(["heralds", st["heralds"]])
+    if st["ps"]:
+        h.append(["postselect", st["ps"]])
+    if st["filter"] is not None:
+        h.append(["filter", st["filter"]])
+    if st["keep"] is not None:
+        h.append(["keep_heralds", st["keep"]])
+    if st["precision"] is not None:
+        h.append(["precision", st["precision"]])
+    return h + [query]
+
+
+def sim_fresh(h, k, steps):
+    return fresh_from_selection(selection_state(h, k, steps), h[k])
 
 
 def sim_signature(h, k, hs, fs):
@@ -967,13 +1049,18 @@ def rand_sim_flip_history(rng, circs):
     second = rng.choice(["thr", "mixed"]) if first in ("none", "pnr") else rng.choice(["none", "pnr"])
     for kind in [first, second] + kinds[:rng.below(3)]:
         h.append(["q", "probs_svd", svd(), detectors_of(rng, kind, m)])
-        r = rng.below(8)
-        if r < 3:
+        r = rng.below(9)
+        if r < 2:
             h.append(["filter", rng.below(3)])
+        elif r < 3:
+            h.append(["selection", rng.choice([0, 1, 2]), None, None])
         elif r < 4:
             h.append(["heralds", [[rng.below(m), rng.below(2)]]])
         elif r < 5:
             h.append(["q", "evolve", rng.choice([a, b])])
+        elif r < 7:
+            x = rng.choice([a, b])
+            h.append(["q", rng.choice(["amp", "prob"]), x, gen.rand_state(rng, m, sum(x))])
     if h[-1][0] != "q":
         h.append(["q", "probs_svd", svd(), detectors_of(rng, rng.choice(DETECTOR_KINDS), m)])
     return h
@@ -1014,31 +1101,55 @@ def rand_sim_superposed_history(rng, circs):
     return h
 
 
+PS_EXPR = ["[0] < 2", "[1] == 1", "[0] > 0"]
+
+
+def rand_selection_op(rng, m):
+    """One mutator of the selection settings through a random route, degenerate values included."""
+    r = rng.below(12)
+    if r < 2:
+        return ["heralds", [[rng.below(2), rng.below(2)]]]
+    if r < 3:
+        return ["clear_heralds"] if rng.chance(1, 2) else ["selection", None, None, []]        # empty heralds dict
+    if r < 5:
+        return ["postselect", rng.choice(PS_EXPR)]
+    if r < 6:
+        return ["clear_postselect"] if rng.chance(1, 2) else ["selection", None, "", None]     # trivially true
+    if r < 8:
+        return ["filter", rng.choice([0, 0, 1, 2])]
+    if r < 10:
+        return ["selection", rng.choice([0, 0, 1, 2]), rng.choice([None, None, rng.choice(PS_EXPR), ""]),
+                rng.choice([None, None, [[rng.below(2), rng.below(2)]], []])]
+    if r < 11:
+        return ["precision", rng.choice([0, 1e-6])]
+    return ["keep_heralds", rng.below(2)]
+
+
 def rand_sim_history(rng, circs, maxlen=8):
     i = rng.below(len(circs))
     m = circs[i].m
     h = [["circ", i]]
     L = rng.rint(3, maxlen)
+    plain = [x for x in SIM_STATES[m] if isinstance(x, list)]
     while len(h) < L:
-        r = rng.below(20)
+        r = rng.below(22)
         if r < 2:
             i = rng.below(len(circs))
             m = circs[i].m
+            plain = [x for x in SIM_STATES[m] if isinstance(x, list)]
             h.append(["circ", i])
-        elif r < 5:
-            h.append(["heralds", [[rng.below(2), rng.below(2)]]])
-        elif r < 6:
-            h.append(["clear_heralds"])
-        elif r < 8:
-            h.append(["postselect", rng.choice(["[0] < 2", "[1] == 1", "[0] > 0"])])
-        elif r < 9:
-            h.append(["clear_postselect"])
         elif r < 10:
-            h.append(["filter", rng.below(3)])
+            h.append(rand_selection_op(rng, m))
         elif r < 13:
             h.append(["q", "probs", rng.choice(SIM_STATES[m])])
         elif r < 15:
-            h.append(["q", "evolve", rng.choice([x for x in SIM_STATES[m] if isinstance(x, list)])])
+            h.append(["q", "evolve", rng.choice(plain)])
+        elif r < 18:
+            # the unconditioned point queries, for any output of the same photon number: also those the heralds (the
+            # mask a previous probs_svd left in the engine) exclude
+            a = rng.choice(plain)
+            b = gen.rand_state(rng, m, sum(a))
+            h.append(["q", rng.choice(["amp", "prob"]), a, b])
         else:
             det = None if rng.chance(1, 2) else [rng.choice(["pnr", "thr"]) for _ in range(m)]
             h.append(["q", "probs_svd", rand_svd(rng, m), det])
@@ -1085,21 +1196,36 @@ def stepper_streams(ctx, rng, n):
         descs.append(d)
         ci = len(descs) - 1
         h = [["circ", ci]]
-        for _ in range(rng.rint(2, 6)):
-            r = rng.below(10)
-            if r < 4:
+        plain = [x for x in SIM_STATES[m] if isinstance(x, list)]
+        for _ in range(rng.rint(2, 7)):
+            r = rng.below(14)
+            if r < 3:
                 h.append(["param", rng.choice(names), rng.choice(PARAM_VALUES)])
-            elif r < 5:
+            elif r < 4:
                 h.append(["circ", ci])
+            elif r < 8:
+                op = rand_selection_op(rng, m)      # every public mutator of the Stepper, through both routes
+                if op[0] in ("clear_heralds", "postselect", "clear_postselect"):
+                    op = ["filter", rng.choice([0, 1, 2, 3])]
+                elif op[0] == "selection":
+                    op = ["selection", op[1], None, op[3]]
+                h.append(op)
+            elif rng.chance(2, 3) and len(h) > 1 and h[-1][0] == "q":
+                h.append(["filter", rng.choice([0, 2, 3])])
+                h.append(list(h[-2]))               # the same query again after the filter moved
             else:
-                h.append(["q", rng.choice(["probs", "evolve"]), rng.choice([x for x in SIM_STATES[m] if isinstance(x, list)])])
+                h.append(["q", rng.choice(["probs", "evolve"]), rng.choice(plain)])
         if h[-1][0] != "q":
             h.append(["q", "probs", [1] + [0] * (m - 1)])
         hists.append(h)
     # regression case: two parameter values that print alike in describe()
     descs.append({"m": 2, "comps": [[0, "BS", [0, 1.0, [0.0, 0.0, 0.0, 0.0]]], [0, "PPS", ["p0", 0.3]],
                                     [0, "BS", [0, 1.3, [0.0, 0.0, 0.0, 0.0]]]]})
-    hists.append([["circ", len(descs) - 1], ["q", "probs", [1, 0]], ["param", "p0", 0.30000007], ["q", "probs", [1, 0]]])
+    hists.insert(0, [["circ", len(descs) - 1], ["q", "probs", [1, 0]], ["param", "p0", 0.30000007], ["q", "probs", [1, 0]]])
+    # regression case (fdd01a3e): the photon filter is part of what the compiled output depends on
+    descs.append({"m": 3, "comps": [[0, "BS", [0, 1.0, [0.0, 0.0, 0.0, 0.0]]], [1, "BS", [0, 0.7, [0.0, 0.0, 0.0, 0.0]]]]})
+    hists.insert(0, [["circ", len(descs) - 1], ["filter", 0], ["q", "evolve", [1, 1, 0]], ["filter", 3],
+                     ["q", "evolve", [1, 1, 0]]])
     cdesc = list(descs)
 
     def fresh_of(h, k, steps):
@@ -1112,15 +1238,21 @@ def stepper_streams(ctx, rng, n):
         if ci is None or ci >= len(descs):
             return None
         cdesc.append(bake(descs[ci], vals))
-        return [["circ", len(cdesc) - 1], h[k]]
+        st = selection_state(h, k, steps)
+        st["circ"] = ["circ", len(cdesc) - 1]
+        st["ps"] = None
+        return fresh_from_selection(st, h[k])
 
     def sig(h, k, hs, fs):
         if hs["c"] != fs["c"]:
             return f"stepper-{hs['c']}-where-fresh-{fs['c']}"
         vals = [op[2] for op in h[:k] if op[0] == "param"]
-        near = any(0 < abs(a - b) < 1e-5 for a in vals + [x[2][1] for x in descs[h[0][1]]["comps"] if x[1] == "PPS"] for b in vals)
-        return "stepper-stale-component-cache-describe-rounding" if near else "stepper-result-depends-on-history"
-    # fresh_of extends cdesc while the histories are scanned: pre-compute all fresh circuits first
+        init = [x[2][1] for op in h[:1] if op[0] == "circ" and op[1] < len(descs) for x in descs[op[1]]["comps"] if x[1] == "PPS"]
+        near = any(0 < abs(a - b) < 1e-5 for a in vals + init for b in vals)
+        if near:
+            return "stepper-stale-component-cache-describe-rounding"
+        muts = [op[0] for op in h[:k] if op[0] != "q"]
+        return "stepper-result-depends-on-history-after-" + (muts[-1] if muts else "query")      # the last mutator
     check_generic_stream(ctx, "stepper", "Stepper", cdesc, hists, fresh_of, sig, "stepper")
 
 
@@ -1153,30 +1285,40 @@ def processor_streams(ctx, rng, n, backend="SLOS"):
     for _ in range(n):
         m = rng.rint(2, 3)
         d, names = param_circ_desc(rng, m)
+        if rng.chance(1, 3):
+            # a processor whose simulator is layered from the start (SimulatorFactory.build: loss / polarisation layer
+            # around the Simulator): settings have to reach the inner layers too
+            c = rand_component(rng, m)
+            while c[1] not in POLARIZING + ("LC",):
+                c = rand_component(rng, m)
+            d["comps"].append(c)
         descs.append(d)
         ci = len(descs) - 1
         h = [["new", ci], ["input", rng.choice([x for x in SIM_STATES[m] if isinstance(x, list)])]]
-        for _ in range(rng.rint(2, 6)):
-            r = rng.below(15)
+        for _ in range(rng.rint(2, 7)):
+            r = rng.below(16)
             if r < 3:
                 h.append(["param", rng.choice(names), rng.choice([0.3, 1.1, 2.5, 0.9])])
             elif r < 5:
                 h.append(["noise", rng.choice([None, {"transmittance": 0.8}, {"indistinguishability": 0.9},
                                                {"transmittance": 0.7, "g2": 0.05}])])
-            elif r < 6:
-                h.append(["filter", rng.below(3)])
             elif r < 7:
-                h.append(["input", rng.choice([x for x in SIM_STATES[m] if isinstance(x, list)])])
+                h.append(["filter", rng.choice([0, 0, 1, 2])])      # degenerate value included: lowered to exactly 0
             elif r < 8:
+                h.append(["input", rng.choice([x for x in SIM_STATES[m] if isinstance(x, list)])])
+            elif r < 9:
                 h.append(["add", rand_component(rng, m)])
                 if h[-1][1][1] in POLARIZING and rng.chance(1, 2):
                     h.append(["pinput", rng.choice(POL_STATES[m])])
-            elif r < 9:
-                h.append(["postselect", rng.choice(["[0] < 2", "[1] == 1", "[0] > 0"])])
             elif r < 10:
+                h.append(["postselect", rng.choice(["[0] < 2", "[1] == 1", "[0] > 0"])])
+            elif r < 11:
                 h.append(["clear_postselect"])
             else:
                 h.append(["q", "probs"])
+        if rng.chance(1, 3):
+            # a setting raised, used, then lowered to its degenerate value, used again
+            h += [["filter", rng.rint(1, 2)], ["q", "probs"], ["filter", 0], ["q", "probs"]]
         if h[-1][0] != "q":
             h.append(["q", "probs"])
         hists.append(h)
@@ -1223,9 +1365,8 @@ def processor_streams(ctx, rng, n, backend="SLOS"):
                 return "processor-auto-filter-set-by-first-query-persists"
         if hs["c"] != fs["c"]:
             return f"processor-{hs['c']}-where-fresh-{fs['c']}"
-        kinds = sorted({(op[0] + "-" + op[1][1]) if op[0] == "add" else op[0]
-                        for op in h[:k] if op[0] not in ("new", "input", "pinput", "q")})
-        return "processor-result-depends-on-history-after-" + "+".join(kinds)
+        muts = [(op[0] + "-" + op[1][1]) if op[0] == "add" else op[0] for op in h[:k] if op[0] not in ("new", "q")]
+        return "processor-result-depends-on-history-after-" + (muts[-1] if muts else "query")   # the last mutator
     check_generic_stream(ctx, "processor:" + backend, "Processor", cdesc, hists, fresh_of, sig, "processor", tol=1e-8)
 
 
@@ -1272,6 +1413,17 @@ def run(ctx):
         hs = [rand_backend_history(rng, circs, name) for _ in range(n)]
         ctx.log(f"{name}: {len(hs)} random histories")
         check_backend_stream(ctx, name, circs, hs, f"random-{name}", with_model=(name == "SLOS"))
+    # ---- engine options as a dimension: SLOS with symbolic coefficients (slow: two modes, at most two photons)
+    two = [i for i, c in enumerate(circs) if c.m == 2]
+    # (with symbolic coefficients only prob_amplitude / probability answer: the bulk queries raise on a fresh engine too)
+    hs = [[["new", {"use_symbolic": True}], ["circ", two[0]], ["in", [1, 1]], ["q", "amp", [1, 1]], ["circ", two[1]],
+           ["in", [1, 1]], ["q", "amp", [1, 1]], ["q", "prob", [2, 0]]]]
+    hs += [rand_swap_history(rng, circs, two, {"use_symbolic": True}) if j % 2 else
+           rand_backend_history(rng, circs, "SLOS", maxlen=8, nmax=2, opts={"use_symbolic": True}, pool=two,
+                                qkinds=("amp", "amp", "prob", "prob", "dist"))
+           for j in range(ctx.n(60, 600))]
+    ctx.log(f"SLOS(use_symbolic=True): {len(hs)} histories")
+    check_backend_stream(ctx, "SLOS", circs, hs, "random-SLOS-symbolic", with_model=False, variant="-symbolic")
     # ---- Simulator / Stepper / Processor (model-free comparison with a fresh object)
     cdesc = [c.desc() for c in circs[:5]]
     sim_corpus = [
@@ -1282,7 +1434,13 @@ def run(ctx):
         [["circ", 0], ["heralds", [[1, 0]]], ["q", "probs_svd", [[1.0, [[0.6, 0.0, [2, 0]], [0.0, 0.8, [1, 1]]]]], None],
          ["filter", 2],
          ["q", "probs_svd", [[0.5, [[1.0, 0.0, "|{_:0},{_:1}>"]]], [0.5, [[0.6, 0.0, [1, 1]], [0.0, 0.8, [2, 0]]]]],
-          ["thr", "pnr"]]]]
+          ["thr", "pnr"]]],
+        # point queries after probs_svd under a herald mask, for an output the heralds exclude (7e0f70ac)
+        [["circ", 2], ["heralds", [[2, 0]]], ["q", "probs_svd", [[1.0, [[1.0, 0.0, [1, 1, 0]]]]], None],
+         ["q", "prob", [1, 1, 0], [1, 0, 1]], ["q", "amp", [1, 1, 0], [0, 1, 1]]],
+        # a filter lowered to exactly 0 through set_selection
+        [["circ", 0], ["filter", 2], ["q", "probs_svd", [[1.0, [[1.0, 0.0, [1, 0]]]]], None],
+         ["selection", 0, None, None], ["q", "probs_svd", [[1.0, [[1.0, 0.0, [1, 0]]]]], None]]]
     for backend, n in (("SLOS", ctx.n(300, 3000)), ("Naive", ctx.n(80, 1000))):
         hs = sim_corpus + [rand_sim_flip_history(rng, circs[:5]) if j % 5 < 2 else
                            rand_sim_superposed_history(rng, circs[:5]) if j % 5 == 2 else
